@@ -44,7 +44,13 @@ class Actor(object):
 
 
 class Actors(object):
-    def __init__(self, max_steps=200, crash_budget=0):
+    def __init__(self, max_steps=200, crash_budget=0, preemptions=None):
+        # preemptions: None = every interleaving; k = the running actor is
+        # switched away from at most k times while it could still run
+        # (context-bounded exploration, Musuvathi & Qadeer)
+        self.preemptions = preemptions
+        self.used_preemptions = 0
+        self.last = None
         self.actors = []
         self.back = threading.Semaphore(0)
         self.current = None
@@ -142,7 +148,18 @@ class Actors(object):
                 if steps >= self.max_steps:
                     self.truncated = True
                     return
-                a = symx.choice('sched%d' % steps, runnable)
+                if self.preemptions is not None and self.last in runnable \
+                        and self.used_preemptions >= self.preemptions:
+                    a = self.last
+                else:
+                    if self.last in runnable:
+                        runnable.remove(self.last)
+                        runnable.insert(0, self.last)
+                    a = symx.choice('sched%d' % steps, runnable)
+                    if self.last is not None and a is not self.last and \
+                            self.last in runnable:
+                        self.used_preemptions += 1
+                self.last = a
                 crash = False
                 if a.may_crash and crashes < self.crash_budget and \
                         a.at not in ('start',) and a.state == 'parked':
@@ -181,9 +198,10 @@ def attach(db, actors):
         actors.hand_off(op)
 
     def on_block(session, holder, key):
-        actors.block(lambda: holder.open and (
-            key in holder.locks or holder.overlay.get(key) is not None
-            and key[1] not in db.table(key[0])))
+        if key and key[0] == 'ulock':
+            actors.block(lambda: holder.open and key[1] in holder.ulocks)
+        else:
+            actors.block(lambda: holder.open and key in holder.locks)
     db.on_op = on_op
     db.on_block = on_block
     db._actors = actors
